@@ -163,7 +163,9 @@ func (w *World) verifyBehavior(rep *FuncReport, fn *ssa.Function, spec *FuncSpec
 				x.errs = append(x.errs, fmt.Sprintf("[%s] contract: %s", beh.Name, c.msg))
 				return
 			}
-			panic(r)
+			// an internal error of the generator on this function: its obligations cannot be generated, which is reported
+			// like any other construct outside the subset (never a crash of the whole check)
+			x.errs = append(x.errs, fmt.Sprintf("[%s] internal error of the generator: %v", beh.Name, r))
 		}
 	}()
 	st := &State{Heap: map[*Obj]Value{}}
